@@ -52,6 +52,10 @@ func (p c07) Run(c *core.Ctx) {
 		p.aliasTag(c)
 		return
 	}
+	if c.Index%16 == 13 {
+		p.contributed(c)
+		return
+	}
 	// few types => many same-typed providers
 	pool := world.TypesAll
 	k := 2 + c.Rng.Intn(5)
@@ -459,4 +463,38 @@ func (p c07) aliasTag(c *core.Ctx) {
 		}
 	}
 	c.Nontrivial(fmt.Sprintf("aliastag|%d|%s", variant, tag))
+}
+
+// contributed: a definition that a factory post-processor registers under a name of its choosing (not the
+// name the component would derive for itself) is the component of that name for by-name points and lookups.
+func (p c07) contributed(c *core.Ctx) {
+	g := world.NewG(c.Rng)
+	h := g.AddRandomNode(world.TypesEagerPlain, 0.2)
+	g.SetTag(h, "IA0", "wire", "contributed-name")
+	g.SetTag(h, "Any0", "wire", "contributed-name")
+	if c.Rng.Intn(2) == 0 {
+		g.AddNode(0, "ordinary-t00") // another instance of the same type registered the ordinary way
+	}
+	g.ShuffleOrders()
+	x := world.Palette[0].New() // a T00; its self-derived name would be the type's default name
+	if c.Rng.Intn(2) == 0 {
+		x.Core().Name = "own-name"
+	}
+	r := world.Start(g.Sc, world.Options{Extra: []any{&world.RegistrarPP{Nodes: []world.Node{x}, Names: []string{"contributed-name"}}}})
+	c.Count("starts", 1)
+	c.Count("contributed_definition_starts", 1)
+	detail := failDetail(g.Sc, r, nil)
+	if r.Outcome() != "ok" {
+		c.Fail("", "by-name points at a definition contributed under an explicit name: "+core.Short(r.OutcomeDetail(), 300), detail)
+		return
+	}
+	var got any
+	var err error
+	r.Guard(func() { got, err = r.App.GetComponentByName("contributed-name") })
+	sl := r.Nodes[h].Slot()
+	if err != nil || got != any(x) || sl.IA0 != any(x) || sl.Any0 != any(x) {
+		c.Fail("", fmt.Sprintf("definition contributed under \"contributed-name\": lookup returns %p (%v), the holder's points hold %p / %p, the component is %p", got, err, sl.IA0, sl.Any0, x), detail)
+		return
+	}
+	c.Nontrivial("contributed|" + g.Sc.GraphSig())
 }
